@@ -1,4 +1,4 @@
 import GopModel.Driver.Loop
 import GopModel.Driver.FS
 open GopModel.Driver
-def main : IO Unit := runDriver (dispatchWith [("fsprog", handleFsProg), ("fsrun", handleFsRun), ("fssafe", handleFsSafe)])
+def main : IO Unit := runDriver (dispatchWith [("fsprog", handleFsProg), ("fsrun", handleFsRun), ("fssafe", handleFsSafe), ("fsmode", handleFsMode)])
